@@ -72,6 +72,7 @@ func (e *Engine) verifyFunc(name string) (*VC, error) {
 		v := vc.havocVal(fv.Type(), "fv_"+fv.Name())
 		binds = append(binds, v)
 	}
+	vc.params = params
 	fr := &Frame{fn: fn, params: params, binds: binds, con: con, entry: st.clone()}
 	fr.prepare()
 	fr.specVars = specVarsFor(fn, params, nil)
